@@ -162,7 +162,9 @@ def main():
             broken.append(('leanchecker', leanchecker))
     failed_names = {b[0] for b in broken}
     obligations = len(thms)
-    discharged = 0 if any(b[0] in ('translator', 'audit', lean_module) or b[0].startswith('translator:') for b in broken) else \
+    # a helper file that no longer builds takes every theorem of the property module with it (the module cannot be elaborated)
+    dep_failed = any(b[0].endswith('.lean') and b[0] != lean_rel for b in broken)
+    discharged = 0 if dep_failed or any(b[0] in ('translator', 'audit', lean_module) or b[0].startswith('translator:') for b in broken) else \
         sum(1 for n, _ in thms if n not in failed_names)
 
     ctx = Ctx(prop, a.tier, seed)
